@@ -8,6 +8,7 @@ CONSTANTS
   TsSet = {1, 2}
   LiveSt = {"ACTIVE", "LEAVING"}
   MaxUpd = 1
+  Clock0 = 1
   MaxClock = 1
   ThinK = 0
   ThinR = 0
